@@ -44,10 +44,10 @@ COMMON_TRUSTED = [
     "harness/gen_dump.c + gcc: coq/Gen.v is the graph of the compiled tables/constants of the current sources",
     "tools/cleaf.py + clang front end (typed AST): coq/GenLeaf.v is the translation of 30 leaf functions (bit-field extractors, weighted level, "
     "AF bitmap get/set, rdsparser_ct_init and getters), proved equal to the model's functions for all arguments in the C ranges; integer conversions wrap, signed overflow assumed absent",
-    "tools/cmid.py + clang front end: coq/GenMid.v is the translation of 49 functions (the seven RDSPARSER_BUFFER_UPDATE instances, "
+    "tools/cmid.py + clang front end: coq/GenMid.v is the translation of 50 functions (the seven RDSPARSER_BUFFER_UPDATE instances, "
     "rdsparser_buffer_add_af, rdsparser_string_convert / _update_single (both build configurations), rdsparser_string_update, "
     "rdsparser_parser_update_string, the eight setters with their callbacks as events, rdsparser_ecc_lookup with its tables, "
-    "rdsparser_group_parse, rdsparser_group0/1/2/4/10_parse, rdsparser_string_get_available / _clear, rdsparser_parser_process, rdsparser_clear, the three setters of the settings, the twelve registration functions and rdsparser_set_user_data) from struct members read to members written; memory model: members of one struct never alias, a string "
+    "rdsparser_group_parse, rdsparser_group0/1/2/4/10_parse, rdsparser_string_get_available / _clear, rdsparser_parser_process, rdsparser_parse, rdsparser_clear, the three setters of the settings, the twelve registration functions and rdsparser_set_user_data) from struct members read to members written; memory model: members of one struct never alias, a string "
     "object is (size, content[], errors[]) and its accessors' pointer arithmetic is not translated; bridged to the model in Properties_Mid_Cxx.v "
     "(a second tie besides the correspondence check: proved on the pinned tree; when a change to the sources defeats translation or proof this is "
     "recorded in the notes and the search for a failing input is doubled, it is not a violation by itself)",
@@ -611,7 +611,7 @@ MID = {
     "C02": (_BUF + _SET + _TXT + ["m_buffer_add_af", "m_add_af", "m_group0_parse", "m_group10_parse"], "Properties_Mid_C02"),
     "C03": (_BUF + _SET + _TXT + ["m_buffer_add_af", "m_add_af", "m_group_parse", "m_group0_parse", "m_group10_parse", "m_ecc_lookup",
                                   "m_group1_parse", "m_group4_parse", "m_string_get_available", "m_string_clear", "m_group2_parse",
-                                  "m_parser_process"], "Properties_Mid_C03"),
+                                  "m_parser_process", "m_parse"], "Properties_Mid_C03"),
     "C04": (_BUF + _SET + ["m_buffer_add_af", "m_add_af"], "Properties_Mid_C04"),
     "C06": (_TXT, "Properties_Mid_C06"),
     "C07": (["m_string_convert", "m_update_single", "m_string_convert_n", "m_update_single_n"], "Properties_Mid_C07"),
